@@ -9,7 +9,7 @@
 //	   one, separators, qualifiers): Parse and CompareStr never panic; if Parse(s) succeeds then
 //	   s.CompareStr(s) == 0 with no error.
 //	P2 antisymmetry: S1 = all ACCEPTED token strings with <=2 tokens (+ all 3-token strings over a
-//	   ~14-token core alphabet in thorough); for ALL ordered pairs: sign(cmp(a,b)) == -sign(cmp(b,a)),
+//	   9-token core alphabet incl. 00 in quick / ~16-token core alphabet in thorough); for ALL ordered pairs: sign(cmp(a,b)) == -sign(cmp(b,a)),
 //	   and an error in one direction only is a violation.
 //	P3 total preorder on grammar-valid versions: S2 = generated valid versions (gen.go); every one
 //	   must be accepted, every pair comparable; on the full |S2|^2 matrix ALL triples are checked for
@@ -407,16 +407,54 @@ func hasLongNumber(strs ...string) bool {
 	return false
 }
 
+// hasMultiZero: some maximal digit run is "00", "000", ...
+func hasMultiZero(strs ...string) bool {
+	for _, s := range strs {
+		for i := 0; i < len(s); {
+			if s[i] < '0' || s[i] > '9' {
+				i++
+				continue
+			}
+			j, zeros := i, true
+			for j < len(s) && s[j] >= '0' && s[j] <= '9' {
+				zeros = zeros && s[j] == '0'
+				j++
+			}
+			if zeros && j-i >= 2 {
+				return true
+			}
+			i = j
+		}
+	}
+	return false
+}
+
 func (x *ctx) transKey(g *group, a, b, c string) string {
 	if g.id == "Packagist" && hasLongNumber(a, b, c) {
 		return "Packagist:long-number-component"
 	}
+	if g.id == "Alpine" && hasMultiZero(a, b, c) {
+		return "Alpine:absent-vs-00-component"
+	}
 	return g.id + ":transitivity"
+}
+
+func pubKey(g *group, a, b string, got int) string {
+	switch {
+	case g.id == "Alpine" && got == 0 && (strings.Contains(a, "_cvs") != strings.Contains(b, "_cvs")):
+		return "Alpine:no-suffix-equals-cvs"
+	case g.id == "RubyGems" && hasMultiZero(a, b):
+		return "RubyGems:multi-zero-segment"
+	}
+	return g.id + ":published-order"
 }
 
 func (x *ctx) congrKey(g *group, a, b, c string) string {
 	if g.id == "Packagist" && hasLongNumber(a, b, c) {
 		return "Packagist:long-number-component"
+	}
+	if g.id == "Alpine" && hasMultiZero(a, b, c) {
+		return "Alpine:absent-vs-00-component"
 	}
 	return g.id + ":eq-congruence"
 }
@@ -515,15 +553,17 @@ func refConsistency(g *group, canon []string) {
 
 // ---------------------------------------------------------------------------------------------
 
-func buildS1(x *ctx, g *group, name string, th bool) []string {
+func buildS1(x *ctx, g *group, name string, th, primary bool) []string {
 	toks := g.tokens()
 	var cand []string
 	ks := newKStrings(toks, 2)
 	for i := 0; i < ks.total(); i++ {
 		cand = append(cand, ks.at(i))
 	}
-	if th {
-		k3 := newKStrings(g.core, 3)
+	// 3-token strings over the core alphabet: a small one in quick (and for alias names), the full
+	// one in thorough
+	if primary {
+		k3 := newKStrings(g.coreTokens(th), 3)
 		for i := k3.off[3]; i < k3.total(); i++ {
 			cand = append(cand, k3.at(i))
 		}
@@ -579,8 +619,8 @@ func runEcosystem(x *ctx, g *group, name string, primary bool, stats map[string]
 		return
 	}
 
-	// ---- P2 (aliases of a comparator use the 2-token S1 also in thorough)
-	s1 := buildS1(x, g, name, th && primary)
+	// ---- P2 (alias names of a comparator use only the <=2-token part of S1)
+	s1 := buildS1(x, g, name, th, primary)
 	m1, full := x.matrix(g, name, s1)
 	st["p2_S1"] = len(s1)
 	st["p2_complete"] = full
@@ -674,7 +714,7 @@ func (x *ctx) orderChecks(g *group, name string, primary bool, st map[string]any
 				strictRef++
 			}
 			if int(got) != want {
-				x.col.add(g.id+":published-order", name, "pub", fmt.Sprintf("%s: cmp(%s,%s)=%d but the published ordering rules give %d", name, q(canon[p]), q(canon[qq]), got, want), canon[p], canon[qq])
+				x.col.add(pubKey(g, canon[p], canon[qq], int(got)), name, "pub", fmt.Sprintf("%s: cmp(%s,%s)=%d but the published ordering rules give %d", name, q(canon[p]), q(canon[qq]), got, want), canon[p], canon[qq])
 			}
 		}
 	}
@@ -687,7 +727,7 @@ func (x *ctx) orderChecks(g *group, name string, primary bool, st map[string]any
 	}
 }
 
-const rule = "for every ecosystem name: Parse/CompareStr never panic and cmp(s,s)=0 for all strings over the raw alphabet (len<=4/5) and token alphabet (<=3/4 tokens); cmp(a,b)=-cmp(b,a) for all ordered pairs of accepted token strings (<=2 tokens, +3 core tokens thorough); on generated grammar-valid versions every pair is comparable, <= is transitive and == is a congruence over all triples; canonical versions agree in sign with independent reference comparators written from the published rules"
+const rule = "for every ecosystem name: Parse/CompareStr never panic and cmp(s,s)=0 for all strings over the raw alphabet (len<=4/5) and token alphabet (<=3/4 tokens); cmp(a,b)=-cmp(b,a) for all ordered pairs of accepted token strings (<=2 tokens + all 3-token strings over a core alphabet); on generated grammar-valid versions every pair is comparable, <= is transitive and == is a congruence over all triples; canonical versions agree in sign with independent reference comparators written from the published rules"
 
 func main() {
 	if f := os.Getenv("VERIF_REPLAY"); f != "" {
